@@ -5,7 +5,8 @@ timedeltas = integer microseconds; binary64 = m * 2^e with correctly rounded div
 and multiplication written on integers): the datetime <-> timedelta conversions are
 exact and strictly order preserving for all values; float seconds -> microseconds ->
 float seconds and back round-trip exactly for every microsecond count below
-2^33 * 10^6 (272 years around the epoch); monotonicity of the float conversions.
+2^33 * 10^6 (272 years around the epoch, the bound is sharp); to_seconds is monotone for all
+timedeltas/datetimes and float -> timedelta/datetime for all finite floats.
 
 Tie (K1, bit-exact): generated timedeltas, aware datetimes (several utc offsets), floats
 (aligned, non-aligned, half-way, boundaries) and ints through the real
@@ -211,7 +212,7 @@ def run(chk):
         chk.violation(sig, d, size=size)
 
     # ---- timedeltas -> seconds -> back ------------------------------------------------
-    tds = gen_us(rng, -MAX_TD_US, MAX_TD_US, N)
+    tds = gen_us(rng, -999999999 * 86400 * US, MAX_TD_US, N)
     res_td = []
     for n in tds:
         td = timedelta(microseconds=n)
@@ -352,7 +353,7 @@ def run(chk):
     if dt_to_us(UTC_ZERO) != 0 or UTC_ZERO.utcoffset() != timedelta(0):
         viol("UTC_ZERO", {"UTC_ZERO": repr(UTC_ZERO)})
 
-    bad, logs = lib.correspondence("C36", "conv", IMPORTS, "tcase * tout", "model",
+    bad, logs = lib.correspondence("C36", "conv", IMPORTS, "(tcase * tout) * tout", "model",
                                    "(fun (a : bool) (_ : tout) => a)",
                                    [(f"({a}, {b})", b) for a, b in gal], prelude=PRELUDE, shard=1500)
     chk.cov["traces_validated_against_impl"] = len(gal)
